@@ -32,8 +32,10 @@ const PropertyInfo kInfo = {
     "fewer than t; a repeated index inside the first t (twin values: both all-zero / exact copy / own value / zero / random); a repeated index beyond the first t; "
     "a share with index 0; out-of-domain parameters (t = 0, n = 0, t > n) which must only not crash. "
     "Oracle: n shares, indices distinct and non-zero, all shares on one polynomial of degree < t with constant term = secret (independent Lagrange "
-    "interpolation over the reference field); t distinct shares -> secret; fewer than t or repeated index among the t used -> std::invalid_argument; "
-    "repeat beyond the first t or surplus shares -> invalid_argument or the true secret. "
+    "interpolation over the reference field); t distinct shares -> secret; fewer than t, or exactly t with a repeated index -> std::invalid_argument; "
+    "repeat inside the first t with surplus shares present, repeat beyond the first t, or surplus of distinct shares -> invalid_argument or the true secret. "
+    "With stream coefficients the first t-1 shares must not reproduce the secret (>= 12 of 32 bytes). Once per process (exhaustive): all field axioms over Shamir.cpp's gf_add/gf_mul/gf_div; for t=2 and t=3 every coefficient choice is enumerated "
+    "through the random_device queue and the map coefficients -> t-1 share values must be a bijection. "
     "Non-trivial: n >= 200, or t = n, or a malformed set was submitted. Distinct = hash of the decoded case."};
 
 namespace {
@@ -625,6 +627,26 @@ void run_case(Ctx& c) {
         }
     }
 
+    // "fewer than t shares carry no information", per split: with coefficients drawn from the (pseudo-)random stream the
+    // polynomial through t-1 shares hits a secret byte with probability 1/256; hitting >= 12 of the 32 bytes (p < 1e-20)
+    // means t-1 shares reconstruct the secret, i.e. the polynomial's degree is deficient.  Not applied when this case
+    // deliberately serves zero coefficients.
+    if (th >= 2 && cmode == 0) {
+        std::vector<std::uint8_t> xs(th - 1);
+        for (unsigned i = 0; i + 1 < th; ++i) xs[i] = shares[i].index;
+        Lagrange L(F, xs);
+        auto w0 = L.weights(0);
+        unsigned hits = 0;
+        for (unsigned b = 0; b < 32; ++b) {
+            std::uint8_t acc = 0;
+            for (unsigned i = 0; i + 1 < th; ++i) acc ^= F.mul(w0[i], shares[i].value[b]);
+            hits += acc == secret[b];
+        }
+        if (hits >= 12)
+            c.fail("C10:fewer-than-t-shares-reveal-secret", "interpolating only the first t-1=" + std::to_string(th - 1) + " shares of a " + std::to_string(th) + "-of-" + std::to_string(n) +
+                                                                " split reproduces " + std::to_string(hits) + " of the 32 secret bytes (expected about 0.125): the sharing polynomial has degree < t-1");
+    }
+
     // ---- combine queries ----------------------------------------------------------------------------
     bool malformed = false;
     std::uint64_t work = 0;
@@ -716,7 +738,9 @@ void run_case(Ctx& c) {
                 const bool zero_twins = all_zero(set[i]) && all_zero(set[j]);
                 c.note("q%zu:dup-inside(%s,pos %u<-%u,+%u,%s)", qi, kVar[variant], j, i, extras, kSelName[sel]);
                 auto o = do_combine(set, th);
-                if (o.kind == CombineOut::Value) {
+                // With exactly t shares every share is used, so the repeat must be rejected.  With surplus shares the
+                // weaker reading applies (which t are used is the implementation's choice): reject, or the true secret.
+                if (o.kind == CombineOut::Value && (extras == 0 || o.v != secret)) {
                     c.fail(zero_twins ? kSigZeroTwins : "C10:duplicate-index-accepted",
                            "index " + std::to_string(set[i].index) + " appears at positions " + std::to_string(i) + " and " + std::to_string(j) + " of the t=" + std::to_string(th) +
                                " shares used " + show_set(set) + ": combine " + show(o) + " instead of throwing std::invalid_argument (secret is " + hex(secret, 32) + ")");
